@@ -1169,7 +1169,8 @@ Print Assumptions C02_chebyshev_scales_Qc.
    five smoothers the amg drivers instantiate (AmgBlockCycle.mk_relax5: damped_jacobi, spai0, gauss_seidel from
    Relax.v, ilu0 from Ilu.v, chebyshev from Cheby.v) and the block coarse solve as a specification
    (AmgBlockCycle.mk_solve_block: exact solve of the matrix expanded to scalars).  Proofs: AmgBlockCycleProofs.v
-   (A1, no algebraic law), AmgBlockCycleLin.v (A2, non-commutative ring laws only; tactic ncr).
+   (A1, no algebraic law), AmgBlockCycleLin.v (A2, non-commutative ring laws only; tactic ncr), AmgBlockCycleSym.v
+   (A3 core, ring with an involutive anti-automorphism).
    Tie: tools/props/c02_block.py, harness/amgc_driver.hh, ocaml/amgc/ops_amgc.ml. *)
 From Amgcl Require Import Ilu NcRing DirectUtil Inverse StaticMat BlockInst BlockKernels NcRingBlock
   AmgBlockCycle AmgBlockCycleProofs AmgBlockCycleLin AmgBlockCycleExample.
@@ -1432,17 +1433,170 @@ Example C02_example_blocks_concrete :
             blk_col QcS 2 [qc 119028 61655; qc 33772 12331]] = true.
 Proof. vm_compute. auto. Qed.
 
-(* FULL STATEMENT (unproved): symmetry for block values.
-   For S0 a commutative ring with trivial conjugation, b > 0, M : crs (BlockS S0 b) with
-     mget M j i = sadj (mget M i j)                      (A_JI = A_IJ^T: the expanded matrix is symmetric),
-   transfer operators with mget R i j = sadj (mget P j i) on every level, every LSolve matrix square and solvable,
-   k one of damped_jacobi, spai0, gauss_seidel, ilu0 (constructed), chebyshev, every diagonal block that a smoother
-   inverts invertible on both sides, npre = npost:
-     forall f g (column-shaped, length nrows M),
-       dot_flat (flat_of_bvec (fst (apply n n nc pc lvls scr1 f x1))) (flat_of_bvec g) =
-       dot_flat (flat_of_bvec f) (flat_of_bvec (fst (apply n n nc pc lvls scr2 g x2)))
-   with lvls = block_levels S0 b k (amg_init ce dc ml (coarse_op_of sc) ts M), sc an embedded base scalar.
-   The commutative proofs (AmgProofs6.v - AmgProofs9.v) use commutativity of the product throughout the bilinear-form
-   calculus; the port needs the anti-automorphism sadj (BlockMatOpsProofs.v) and two-sided block inverses
-   (NcRingBlockInv.v).  On the implementation the statement is CHECKED exactly (tools/props/c02_block.py,
-   oracle:block-symmetry: the dense B assembled from unit vectors equals its transpose) for all five smoothers. *)
+(* ================================================================== *)
+(* ---- A3 for block values (core): symmetry of the V(1,1)-cycle WITHOUT commutativity (AmgBlockCycleSym.v) ----
+   Values in a non-commutative ring with an involutive anti-automorphism sadj (math::adjoint; for
+   static_matrix<T,b,b> the (conjugate) transpose of the block).  Form: ipH n x y = sum_{i<n} sadj x_i * y_i, a ring
+   element -- for column-0 blocks its (0,0) cell is the inner product of the expanded vectors
+   (C02_block_form_is_expanded_inner_product).  hier_herm: A_l hermitian (A_JI = A_IJ^T), R_l = adjoint P_l,
+   self-adjoint coarse solve, post-smoother consistent and adjoint to the pre-smoother.  No product is commuted. *)
+From Amgcl Require Import BlockMatOpsProofs AmgBlockCycleSym.
+
+Theorem C02_cycle_hermitian_nc {S : Scalar} (Hnc : ncring_theory S) (Seqb : seqb_spec S)
+  (adj_add : forall a b : S, sadj (a + b) = sadj a + sadj b)
+  (adj_mul : forall a b : S, sadj (a * b) = sadj b * sadj a)
+  (adj_inv : forall a : S, sadj (sadj a) = a) (lvls : list (@level S)) :
+  hier_herm lvls -> forall scr1 scr2 f g,
+  scratch_wf lvls scr1 -> scratch_wf lvls scr2 ->
+  length f = top_n lvls -> length g = top_n lvls ->
+  ipH (top_n lvls) (fst (cycle 1 1 1 lvls scr1 f (vzero (top_n lvls)))) g =
+  ipH (top_n lvls) f (fst (cycle 1 1 1 lvls scr2 g (vzero (top_n lvls)))).
+Proof. exact (cycle_herm Hnc Seqb adj_add adj_mul adj_inv lvls). Qed.
+Print Assumptions C02_cycle_hermitian_nc.
+
+Theorem C02_apply_hermitian_nc {S : Scalar} (Hnc : ncring_theory S) (Seqb : seqb_spec S)
+  (adj_add : forall a b : S, sadj (a + b) = sadj a + sadj b)
+  (adj_mul : forall a b : S, sadj (a * b) = sadj b * sadj a)
+  (adj_inv : forall a : S, sadj (sadj a) = a) (lvls : list (@level S)) :
+  hier_herm lvls -> lvls <> [] -> forall scr1 scr2 f g x1 x2,
+  scratch_wf lvls scr1 -> scratch_wf lvls scr2 ->
+  length f = top_n lvls -> length g = top_n lvls ->
+  length x1 = top_n lvls -> length x2 = top_n lvls ->
+  ipH (top_n lvls) (fst (apply 1 1 1 1 lvls scr1 f x1)) g =
+  ipH (top_n lvls) f (fst (apply 1 1 1 1 lvls scr2 g x2)).
+Proof. exact (apply_herm Hnc Seqb adj_add adj_mul adj_inv lvls). Qed.
+Print Assumptions C02_apply_hermitian_nc.
+
+(* damped Jacobi and SPAI-0 over non-commuting values: consistent, and self-adjoint when the scaled inverted diagonal
+   entries w * d_i are hermitian (diag_good) *)
+Theorem C02_jacobi_spai0_hermitian_smoothers {S : Scalar} (Hnc : ncring_theory S) (Seqb : seqb_spec S)
+  (adj_mul : forall a b : S, sadj (a * b) = sadj b * sadj a)
+  (k : @relax5 S) (A : crs S) : wf A = true -> diag_good k A ->
+  sweep_consH (nrows A) A (snd (mk_relax5 k A)) /\
+  sweep_adjH (nrows A) (fst (mk_relax5 k A)) (snd (mk_relax5 k A)).
+Proof. exact (mk_relax5_diag_herm Hnc Seqb adj_mul k A). Qed.
+Print Assumptions C02_jacobi_spai0_hermitian_smoothers.
+
+(* for damped Jacobi the side condition follows from the diagonal blocks alone: hermitian and (unless zero) invertible
+   on both sides; damping central and hermitian (an embedded real base scalar) *)
+Theorem C02_jacobi_diagonal_condition {S : Scalar} (Hnc : ncring_theory S)
+  (adj_add : forall a b : S, sadj (a + b) = sadj a + sadj b)
+  (adj_mul : forall a b : S, sadj (a * b) = sadj b * sadj a)
+  (adj_inv : forall a : S, sadj (sadj a) = a) (w : S) (A : crs S) :
+  sadj w = w -> (forall x : S, w * x = x * w) ->
+  (forall i dd, i < nrows A -> first_col (nth i (rows A) []) i = Some dd ->
+     sadj dd = dd /\ (is_zero dd = false -> dd * sinv dd = s1 /\ sinv dd * dd = s1)) ->
+  diag_good (R5Std (RJacobi w)) A.
+Proof. exact (jacobi_diag_good Hnc adj_add adj_mul adj_inv w A). Qed.
+Print Assumptions C02_jacobi_diagonal_condition.
+
+(* the Galerkin operator of a hermitian matrix with R = adjoint P is hermitian (block products in code order) *)
+Theorem C02_galerkin_hermitian {S : Scalar} (Hnc : ncring_theory S)
+  (adj_add : forall a b : S, sadj (a + b) = sadj a + sadj b)
+  (adj_mul : forall a b : S, sadj (a * b) = sadj b * sadj a)
+  (adj_inv : forall a : S, sadj (sadj a) = a) (A P R : crs S) n n' :
+  wf A = true -> wf R = true -> herm_mat n A -> transpH n n' R P ->
+  forall i j, i < n' -> j < n' -> mget (galerkin A P R) j i = sadj (mget (galerkin A P R) i j).
+Proof. exact (galerkin_herm Hnc adj_add adj_mul adj_inv A P R n n'). Qed.
+Print Assumptions C02_galerkin_hermitian.
+
+Theorem C02_block_form_is_expanded_inner_product (S0 : Scalar) (b : nat) (x y : vec (BlockS S0 b)) n r s :
+  r < b -> s < b ->
+  blk_get (ipH (S := BlockS S0 b) n x y) r s =
+  sumn (fun i => sumn (fun k => sadj (blk_get (vget (S := BlockS S0 b) x i) k r) *
+                                blk_get (vget (S := BlockS S0 b) y i) k s) b) n.
+Proof. exact (ipH_block_cell S0 b x y n r s). Qed.
+Print Assumptions C02_block_form_is_expanded_inner_product.
+
+(* every block-valued hierarchy amg_init builds from a hermitian block matrix (A_JI = A_IJ^T), R_l = adjoint P_l,
+   Galerkin or re-scaled Galerkin (central hermitian factor) coarse operators, damped Jacobi or SPAI-0 with diag_good
+   on every level: the V(1,1) preconditioner is symmetric, <B f, g> = <f, B g>; with a direct coarse solver its
+   self-adjointness is the remaining hypothesis, with the smoother on the coarsest level none is left *)
+Theorem C02_apply_symmetric_blocks (S0 : Scalar) (b : nat) (Srt : Sring S0) (Seqb0 : seqb_spec S0) (Hb : 0 < b)
+  (sadj_add0 : forall x y : S0, sadj (x + y) = sadj x + sadj y)
+  (sadj_mul0 : forall x y : S0, sadj (x * y) = sadj x * sadj y)
+  (sadj_invol0 : forall x : S0, sadj (sadj x) = x)
+  (k : @relax5 (BlockS S0 b)) ce dc ml (sc : option (BlockS S0 b)) ts (M : crs (BlockS S0 b)) :
+  scale_herm sc -> wf M = true -> herm_mat (nrows M) M -> ts_herm (nrows M) ts ->
+  (forall A, In (LSolve A) (amg_init ce dc ml (coarse_op_of sc) ts M) ->
+             solve_symH (nrows A) (mk_solve_block S0 b A)) ->
+  (forall l, In l (amg_init ce dc ml (coarse_op_of sc) ts M) -> diag_good k (ld_A l)) ->
+  let lvls := block_levels S0 b k (amg_init ce dc ml (coarse_op_of sc) ts M) in
+  forall scr1 scr2 f g x1 x2,
+  scratch_wf lvls scr1 -> scratch_wf lvls scr2 ->
+  length f = nrows M -> length g = nrows M -> length x1 = nrows M -> length x2 = nrows M ->
+  ipH (S := BlockS S0 b) (nrows M) (fst (apply 1 1 1 1 lvls scr1 f x1)) g =
+  ipH (S := BlockS S0 b) (nrows M) f (fst (apply 1 1 1 1 lvls scr2 g x2)).
+Proof. exact (block_apply_herm S0 b Srt Seqb0 Hb sadj_add0 sadj_mul0 sadj_invol0 k ce dc ml sc ts M). Qed.
+Print Assumptions C02_apply_symmetric_blocks.
+
+Theorem C02_apply_symmetric_blocks_smoother_coarse (S0 : Scalar) (b : nat) (Srt : Sring S0) (Seqb0 : seqb_spec S0)
+  (Hb : 0 < b)
+  (sadj_add0 : forall x y : S0, sadj (x + y) = sadj x + sadj y)
+  (sadj_mul0 : forall x y : S0, sadj (x * y) = sadj x * sadj y)
+  (sadj_invol0 : forall x : S0, sadj (sadj x) = x)
+  (k : @relax5 (BlockS S0 b)) ce ml (sc : option (BlockS S0 b)) ts (M : crs (BlockS S0 b)) :
+  scale_herm sc -> wf M = true -> herm_mat (nrows M) M -> ts_herm (nrows M) ts ->
+  (forall l, In l (amg_init ce false ml (coarse_op_of sc) ts M) -> diag_good k (ld_A l)) ->
+  let lvls := block_levels S0 b k (amg_init ce false ml (coarse_op_of sc) ts M) in
+  forall scr1 scr2 f g x1 x2,
+  scratch_wf lvls scr1 -> scratch_wf lvls scr2 ->
+  length f = nrows M -> length g = nrows M -> length x1 = nrows M -> length x2 = nrows M ->
+  ipH (S := BlockS S0 b) (nrows M) (fst (apply 1 1 1 1 lvls scr1 f x1)) g =
+  ipH (S := BlockS S0 b) (nrows M) f (fst (apply 1 1 1 1 lvls scr2 g x2)).
+Proof.
+  exact (block_apply_herm_smoother_coarse S0 b Srt Seqb0 Hb sadj_add0 sadj_mul0 sadj_invol0 k ce ml sc ts M).
+Qed.
+Print Assumptions C02_apply_symmetric_blocks_smoother_coarse.
+
+(* closed at static_matrix<Q,b,b> (trivial conjugation on Q) *)
+Theorem C02_apply_symmetric_blocks_smoother_coarse_Qc (b : nat) (Hb : 0 < b)
+  (k : @relax5 (BlockS QcS b)) ce ml (sc : option (BlockS QcS b)) ts (M : crs (BlockS QcS b)) :
+  scale_herm sc -> wf M = true -> herm_mat (nrows M) M -> ts_herm (nrows M) ts ->
+  (forall l, In l (amg_init ce false ml (coarse_op_of sc) ts M) -> diag_good k (ld_A l)) ->
+  let lvls := block_levels QcS b k (amg_init ce false ml (coarse_op_of sc) ts M) in
+  forall scr1 scr2 f g x1 x2,
+  scratch_wf lvls scr1 -> scratch_wf lvls scr2 ->
+  length f = nrows M -> length g = nrows M -> length x1 = nrows M -> length x2 = nrows M ->
+  ipH (S := BlockS QcS b) (nrows M) (fst (apply 1 1 1 1 lvls scr1 f x1)) g =
+  ipH (S := BlockS QcS b) (nrows M) f (fst (apply 1 1 1 1 lvls scr2 g x2)).
+Proof.
+  exact (block_apply_herm_smoother_coarse QcS b QcS_ring QcS_eqb Hb (fun _ _ => eq_refl) (fun _ _ => eq_refl)
+           (fun _ => eq_refl) k ce ml sc ts M).
+Qed.
+Print Assumptions C02_apply_symmetric_blocks_smoother_coarse_Qc.
+
+(* non-vacuity: the hypotheses hold on the concrete hierarchy of AmgBlockCycleExample.v (non-commuting 2 x 2 blocks,
+   damped Jacobi 3/4, over_interp = 2, smoother on the coarse level), and the identity evaluated inside Coq *)
+Example C02_example_blocks_symmetric_hypotheses :
+  scale_herm (S := B2) (Some exBhalf) /\ wf exBM = true /\ herm_mat (S := B2) (nrows exBM) exBM /\
+  ts_herm (S := B2) (nrows exBM) exBTs /\
+  (forall l, In l exBH' -> diag_good exBJac (ld_A l)) /\ length exBH' = 2 /\
+  seqb (s := B2)
+    (ipH (S := B2) 3 (fst (apply 1 1 1 1 (block_levels QcS 2 exBJac exBH') (map (@fresh_scratch B2) exBH') exBF exBZ)) exBG)
+    (ipH (S := B2) 3 exBF (fst (apply 1 1 1 1 (block_levels QcS 2 exBJac exBH') (map (@fresh_scratch B2) exBH') exBG exBZ)))
+    = true.
+Proof.
+  split; [apply (scale_herm_embed QcS 2 QcS_ring); reflexivity|].
+  split; [vm_compute; reflexivity|].
+  split; [apply (herm_matb_ok (BlockS_eqb QcS 2 QcS_eqb)); vm_compute; reflexivity|].
+  split; [apply (ts_hermb_ok (BlockS_eqb QcS 2 QcS_eqb)); vm_compute; reflexivity|].
+  split; [apply (levels_goodb_ok (BlockS_eqb QcS 2 QcS_eqb)); vm_compute; reflexivity|].
+  split; vm_compute; reflexivity.
+Qed.
+
+(* FULL STATEMENT (unproved part): symmetry for block values beyond the core above.
+   For S0 a commutative ring with trivial conjugation, b > 0, M : crs (BlockS S0 b) hermitian (A_JI = A_IJ^T),
+   transfer operators with R_l = adjoint P_l, every LSolve matrix square and solvable, k ANY of damped_jacobi, spai0,
+   gauss_seidel (forward pre / backward post), ilu0 (constructed), chebyshev, every diagonal block that a smoother inverts
+   hermitian and invertible on both sides, npre = npost = n >= 1, ncycle nc >= 1, pre_cycles pc >= 1:
+     ipH (nrows M) (fst (apply n n nc pc lvls scr1 f x1)) g = ipH (nrows M) f (fst (apply n n nc pc lvls scr2 g x2))
+   with lvls = block_levels S0 b k (amg_init ce dc ml (coarse_op_of sc) ts M), scale_herm sc.
+   PROVED above: n = nc = pc = 1, k in {damped_jacobi, spai0} (C02_apply_symmetric_blocks and its two variants), with the self-adjointness
+   of the block coarse solve as a hypothesis when direct_coarse = true.
+   NOT proved: (a) forward/backward Gauss-Seidel, ILU(0), Chebyshev as adjoint pairs over non-commuting values
+   (commutative versions: AmgProofs8.v, hypotheses for ILU/Chebyshev); (b) n > 1, W-cycles, pre_cycles > 1 (commutative
+   version: AmgProofs7.v, needs consistency of the pre-smoother as well); (c) solve_symH for mk_solve_block (commutative
+   version: AmgProofs9.v on the expanded matrix).  On the implementation the full statement is CHECKED exactly
+   (tools/props/c02_block.py, oracle:block-symmetry: the dense B assembled from unit vectors equals its transpose) for
+   all five smoothers and all cycle parameters with npre = npost. *)
